@@ -254,8 +254,8 @@ func init() {
 		Required: []string{"tokens", "docs.agree_with_encoding_xml", "fuzz.tokens", "fuzz.attributes", "fuzz.eof", "fuzz.nul_errors", "probes"},
 		Streams: []fw.Stream{
 			{Name: "probes", Quick: len(c11Probes), Thorough: len(c11Probes), Run: c11Probe},
-			{Name: "generated", Quick: 300000, Thorough: 8000000, Run: c11Generated},
-			{Name: "fuzz", Quick: 400000, Thorough: 10000000, Run: c11Fuzz},
+			{Name: "generated", Quick: 300000, Thorough: 40000000, Run: c11Generated},
+			{Name: "fuzz", Quick: 400000, Thorough: 50000000, Run: c11Fuzz},
 		},
 	})
 }
